@@ -205,6 +205,15 @@ class ContractMixin:
             sv.facts(st, self)
             f = {"str_init": init_seg, "str_last": last_seg, "str_first": first_seg}[name]
             return mk_str(f(args[0].t, args[1].t))
+        if name in ("rec_has", "rec_get", "rec_set"):
+            rec = args[0]
+            f = z3.simplify(args[1].t).as_string()
+            lo, hi, ft = rec.ty.field_slice(f)
+            if name == "rec_has":
+                return mk_bool(rec.terms[lo])
+            if name == "rec_get":
+                return Val(ft, rec.terms[lo + 1:hi])
+            return self.store_item(rec, args[1], args[2], st, node)
         if name == "inside":
             from . import pathmodel
             st.axiom(pathmodel.inside(args[0], args[0]).t)
